@@ -137,7 +137,8 @@ def run(chk, tier):
 
     # (A) results
     req, inv, asw, nosum = mres["req"], mres["inv"], mres["asw"], mres["nosum"]
-    for name, r in (("LibFileRequired", req), ("LibFileAsWrittenInv", inv), ("LibFileAsWritten", asw), ("LibFileRequiredNoSum", nosum)):
+    q = "" if thorough else "Q"
+    for name, r in (("LibFileRequired" + q, req), ("LibFileAsWrittenInv" + q, inv), ("LibFileAsWritten", asw), ("LibFileRequiredNoSum", nosum)):
         chk.add_tlc(name, r)
     if req.violated:
         chk.violation("design model: the required reader violates %s" % req.violated, req.trace_text,
